@@ -402,10 +402,9 @@ Lemma P_commit cs gc gcl gs hb th ne ni t c g x' o' :
   gs g = GRes t c -> hub_added (th t) ->
   c_gen x' = g -> c_sub x' = true -> c_gate x' = false ->
   thread_ok (upd gs g (GLive c)) t o' ->
-  (forall g' c', ~ holds_resv o' g' c') -> (forall g' c', ~ tearing o' g' c') ->
   InvC (insert c x' cs) gc gcl (upd gs g (GLive c)) hb (upd th t o') ne ni.
 Proof.
-  intros I Hg Hadd Gx' Sx' Tx' Hok NR NT. pose proof I as I0. destruct I.
+  intros I Hg Hadd Gx' Sx' Tx' Hok. pose proof I as I0. destruct I.
   destruct (i_res0 _ _ _ Hg) as ((x & L & Gx & Sx) & Bg & Cg).
   assert (OTHER : forall g' c', g' <> g -> gs g' = GRes t c' -> False).
   { intros g' c' Hne H'. destruct (i_res0 _ _ _ H') as (_ & _ & C').
@@ -501,10 +500,9 @@ Lemma P_dead cs gc gcl gs hb th ne ni t c g o' :
   InvC cs gc gcl gs hb th ne ni ->
   gs g = GTear t c -> ~ pre_hubrem (th t) g ->
   thread_ok (upd gs g GDead) t o' ->
-  (forall g' c', ~ holds_resv o' g' c') -> (forall g' c', ~ tearing o' g' c') ->
   InvC cs gc gcl (upd gs g GDead) hb (upd th t o') ne ni.
 Proof.
-  intros I Hg Hnp Hok NR NT. pose proof I as I0. destruct I.
+  intros I Hg Hnp Hok. pose proof I as I0. destruct I.
   pose proof (i_tear0 _ _ _ Hg) as Tg.
   assert (Ht : th t <> None) by (destruct (th t); [congruence|destruct Tg]).
   assert (NORES : forall g' c', gs g' = GRes t c' -> False).
